@@ -131,6 +131,10 @@ void LLVMVisitor::init(const vec_basic &inputs, const vec_basic &outputs,
     llvm::InitializeNativeTargetAsmParser();
     context = make_unique<llvm::LLVMContext>();
     symbols = inputs;
+    // A previous init that threw midway leaves these behind; they point into
+    // the LLVMContext that has just been destroyed.
+    symbol_ptrs.clear();
+    replacement_symbol_ptrs.clear();
 
     // Create some module to put our function into it.
     std::unique_ptr<llvm::Module> module
